@@ -183,7 +183,7 @@ def w_objects(arg):
                                      # RFC 4880 6.2: header values are UTF-8 text
                                      'Gr\u00fc\u00dfe', 'Zo\u00eb \u65e5\u672c', 'na\u00efve: caf\u00e9']))
     hdr = st.lists(st.tuples(st.sampled_from(HEADER_KEYS), val), max_size=3, unique_by=lambda kv: kv[0])
-    strat = st.fixed_dictionaries({'i': st.integers(0, 10000), 'headers': hdr, 'form': st.sampled_from(['str', 'bytes', 'bytearray', 'crlf', 'surround'])})
+    strat = st.fixed_dictionaries({'i': st.integers(0, 10000), 'headers': hdr, 'form': st.sampled_from(['str', 'bytes', 'bytearray', 'crlf', 'surround', 'followed'])})
 
     def body(c):
         label, obj, cls = objects(c['i'])
@@ -214,6 +214,11 @@ def w_objects(arg):
             inp = text.replace('\n', '\r\n')
         elif c['form'] == 'surround':
             inp = ['preamble line\n\n', 'Gr\u00fc\u00dfe,\n\n'][c['i'] % 2] + text + '\ntrailer\n'
+        elif c['form'] == 'followed':
+            # another armored block of another kind behind it (a mail with the signer's key attached, a file of several blocks): the first block is
+            # the object, framed by its own armor tail -- not by the last one of the input
+            other = armor.write_block('PUBLIC KEY BLOCK' if label in ('SIGNED MESSAGE', 'MESSAGE', 'SIGNATURE') else 'SIGNATURE', b'\xc2\x04\x04\x00\x16\x08' + bytes(range(40)))
+            inp = text + ('\n' if c['i'] % 2 else '') + other
         elif c['form'] == 'bytes':
             inp = text.encode('utf-8')
         elif c['form'] == 'bytearray':
